@@ -420,9 +420,9 @@ func (w *world) judgeC03Mixed(op Op) {
 	for n := uint64(0); n <= headNum; n++ {
 		want := t.Ancestor(hid, n)
 		if got := core.GetCanonicalHash(db, n); got != t.Nodes[want].Block.Hash() {
-			shape := "entry-of-other-branch" // insert extended a block head whose own chain the index no longer describes
+			shape := "entry-of-other-branch" // (before 3f14ce8: insert extended a block head whose own chain the index no longer describes)
 			if got == (common.Hash{}) {
-				shape = "entry-missing" // reorg's clean-up loop deleted entries of the header chain above the new block head
+				shape = "entry-missing" // (before 3f14ce8: reorg's clean-up loop deleted entries of the header chain above the new block head)
 			}
 			w.violate("c03-canon-below", "canon-below-head-wrong:"+shape, fmt.Sprintf("after %s: header head %d (#%d): number %d maps to %s, want ancestor %d", op, hid, headNum, n, w.idOf(got), want))
 			break
